@@ -8,6 +8,8 @@ def run(chk):
     chk.trust("python semantics of the stated subset as encoded by pyvc (DESIGN 2.3)")
     chk.trust("z3 5.1.0 (string theory for the injectivity lemma)")
     CC.id_contracts(chk, "C08")
+    from . import c19
+    c19.counter_sequence(chk, "C08.ctx.counter_atomic")  # the contract of increment() used above, proved on the real method
     CC.operation_methods(chk, "C08", want=("C08",))
     X.item_in_child_context(chk, "C08")
     X.handlers_dispatch(chk, "C08")
